@@ -317,8 +317,15 @@ fn filter_kinds(t: &str) -> Option<BTreeSet<String>> {
     Some(rest[..end].split('|').map(|k| k.trim_start_matches("Tok::").trim_end_matches("{..}").trim_end_matches("(..)").trim_end_matches("(_)").to_string()).collect())
 }
 
+pub fn filter_dominance_pub(cx: &mut Ctx, rule: &str) {
+    filter_dominance_named(cx, rule)
+}
+
 fn filter_dominance(cx: &mut Ctx) {
-    let rule = "C10.F2";
+    filter_dominance_named(cx, "C10.F2")
+}
+
+fn filter_dominance_named(cx: &mut Ctx, rule: &str) {
     cx.rule(rule, "with full-lexer on, every path from a token source to TopParser::parse passes a filter that removes exactly the feature-gated token kinds: the filter sits in parse_filtered_tokens before the parser is invoked, and TopParser is invoked from nowhere else");
     cx.floor(rule, 3);
     let p = match sm::load(&cx.repo, "parser/src/parser.rs") {
